@@ -118,9 +118,9 @@ func c14Case(v c14Variant, seq []int, sched Sched) *Case {
 }
 
 const (
-	eNotRunning = "worker is not running"
-	eRunning    = "worker is already running"
-	eSameConc   = "worker already has the same concurrency"
+	eNotRunning = "ErrNotRunningWorker"
+	eRunning    = "ErrRunningWorker"
+	eSameConc   = "ErrSameConcurrency"
 )
 
 func oC14(ix *Index) []Violation {
